@@ -1,41 +1,51 @@
 """E4 - preemption-bounded deterministic scheduling of REAL threads (baton passing).
 
-Every controlled thread owns a private real semaphore (``go``).  The scheduler - the thread that calls
-``Scheduler.run()`` - releases exactly one of them and waits until that thread reaches its next *point*
-(or exits).  At a point a thread publishes what it is about to do: an ``enabled()`` predicate and an optional
-virtual deadline.  The scheduler then picks the next thread among the enabled ones with ``ctx.choose``:
+Every controlled thread owns a private real binary semaphore (``go``, a raw ``_thread`` lock).  Exactly one controlled
+thread holds the *baton* and runs; all the others are parked on their ``go``.  At a *point* the running thread publishes
+what it is about to do - an ``enabled()`` predicate and an optional virtual deadline - and the scheduling decision is
+taken right there (by the baton holder, so the ``Ctx`` and the ``World`` are never used concurrently):
 
     canonical order = [current thread (if still enabled), the others by creation index]
-    index != 0 while the current thread is still enabled  = PREEMPTION  (costed=True)
-    any choice made while the current thread is blocked / has exited    (costed=False, free)
+    label "first"   : which thread runs first                                              (free)
+    label "preempt" : index != 0 while the current thread is still enabled = PREEMPTION    (costed)
+    label "switch"  : the current thread is blocked / has exited, index != 0 = not the canonical successor
+                      (free by default, costed with ``Scheduler(costed_switches=True)``)
 
-When nobody is enabled the virtual clock jumps to the earliest deadline; no deadline => deadlock.  Exactly one
-controlled thread runs at any time, so the harness, the ``Ctx`` and the ``World`` are never accessed concurrently.
+If the decision is "keep running" nothing else happens; otherwise the chosen thread's ``go`` is released and the caller
+parks on its own.  When nobody is enabled the virtual clock jumps to the earliest deadline; no deadline => the run ends
+with status 'deadlock'.  The thread that called ``Scheduler.run()`` only waits for the baton to come back (run over) and
+is the hang watchdog: no scheduling step for ``hang_timeout`` real seconds => ``HarnessHang`` (an INTERNAL harness
+error, never a violation; the process is then *tainted* because a stuck thread cannot be killed).
 
-Points are: acquire / release of ``CLock`` / ``CRLock``; ``CEvent.set / clear / is_set / wait``;
-``CCondition.wait / notify / notify_all``; ``CThread.start / join``; thread start and exit; every ``select()`` of an
-event loop built with ``Scheduler.loop_factory`` (blocking selects are enabled when the world reports a ready fd, the
-loop's self-pipe is REALLY readable - polled with a zero timeout - or the timeout's virtual deadline is reached);
-``loop.call_soon_threadsafe`` of such a loop; anything a harness marks with ``Scheduler.point(label)``.
+Points are: acquire / release of ``CLock`` / ``CRLock`` (re-entrant acquisitions are not points); ``CEvent.set / clear /
+is_set / wait``; ``CCondition.wait / notify / notify_all``; ``CThread.start / join``; thread exit; every ``select()`` of
+an event loop built with ``Scheduler.loop_factory`` (a blocking select is enabled when the world reports a ready fd, the
+loop's self-pipe is REALLY readable - polled with a zero timeout - or the ready queue is not empty; its timeout is a
+virtual deadline); ``loop.call_soon_threadsafe`` of such a loop (a point of the CALLING thread); anything a harness
+marks with ``Scheduler.point(label)`` (e.g. from a World send/recv policy: FakeSocket I/O as a point).
+A point is placed BEFORE the operation it announces.
 
 The controlled primitives are installed by replacing the ``threading`` NAME inside the modules that create the
-library's synchronisation objects (``install()`` / ``uninstall()`` / ``installed()``).  Locks created elsewhere
-(logging, import system, asyncio internals) stay real: no point lies inside a region that holds them.
+library's synchronisation objects (``install()`` / ``uninstall()`` / ``installed()``); classes that were DEFINED as
+subclasses of the real ``threading.Thread`` (NetworkServerThread) get their base class swapped for the same duration.
+Locks created elsewhere (logging, import system, asyncio internals) stay real: no point lies inside a region that
+holds them.  ``time.perf_counter`` / ``time.monotonic`` are pointed at the virtual clock once per execution by
+``Scheduler.run()`` and restored by ``Scheduler.abort()``.
 
 What this engine does NOT explore: a switch between two bytecodes of library code with no point in between
 (data races on unsynchronised Python state).
 
-API summary (see also the report in DESIGN.md E4):
+API summary:
 
-    sched = Scheduler(ctx, world=None, horizon=4000, hang_timeout=20.0)
-    with installed(sched):                      # swaps the threading name, restores it even on error
+    sched = Scheduler(ctx, world=None, horizon=4000, hang_timeout=20.0, costed_switches=False)
+    with installed(sched):                      # swaps the threading name, restores it even on error, unwinds threads
         obj = LibraryObject(...)                # primitives created from now on are controlled
-        sched.spawn(lambda: obj.call_a(), "a")
+        sched.spawn(lambda: obj.call_a(), "a")  # a real thread, parked until scheduled
         sched.spawn(lambda: obj.call_b(), "b")
         status = sched.run()                    # 'ok' | 'deadlock' | 'horizon'   (raises HarnessHang on a hang)
-        sched.threads[i].result / .exc / .parked_kind ; sched.steps ; sched.now()
+        sched.threads[i].result / .exc / .done / .parked_kind ; sched.steps ; sched.now() ; sched.trace (keep_trace=True)
         sched.spawn(cleanup, "cleanup"); sched.run(explore=False)   # deterministic continuation (no choices)
-        sched.abort()                           # unwinds whatever is still parked (always call it, e.g. in finally)
+    # leaving the block calls sched.abort(): every thread still parked is unwound (one at a time) and joined
 """
 from __future__ import annotations
 
@@ -43,9 +53,7 @@ import asyncio
 import contextlib
 import importlib
 import _thread
-import select as _select
 import selectors
-import sys
 import threading as _real_threading
 import time
 import types
@@ -362,8 +370,6 @@ class Scheduler:
         self.explore = explore
         self.install_clock()
         self.status = None
-        if self.current is not None and not self.current.done and not self.current.is_enabled():
-            pass
         nxt = self._decide()
         if nxt is not None:
             nxt.go.release()
@@ -814,6 +820,8 @@ class CoopSelector(VSelector):
     def select(self, timeout: float | None = None) -> list[tuple[selectors.SelectorKey, int]]:
         w = self.world
         s = self.sched
+        if s.aborting:
+            raise _Abort()  # the execution is being abandoned: never run the loop any further
         w.selects += 1
         if w.selects > w.horizon:
             raise HorizonHit(f"more than {w.horizon} select() calls")
